@@ -3,6 +3,7 @@ package main
 
 import (
 	"fmt"
+	"os"
 	"sort"
 )
 
@@ -17,6 +18,7 @@ type unitResult struct {
 	PerCheck          map[string]map[string]int
 	Violations        []unitViolation
 	Samples           []any
+	NotExhaustive     []string
 }
 
 type unitCheck struct {
@@ -34,6 +36,9 @@ func unitChecks() []unitCheck {
 		{"sidx-blocks", unitSidxBlocks},
 		{"keywindow", unitKeyWindow},
 		{"sidx-primary", unitSidxPrimary},
+		{"measure-straddle", unitMeasureStraddle},
+		{"trace-fileparts", unitTraceFileParts},
+		{"stream-rowplan", unitStreamRowPlan},
 	}
 }
 
@@ -42,6 +47,9 @@ func runUnit(thorough bool, only *unitCase) unitResult {
 	seen := map[string]bool{}
 	for _, c := range unitChecks() {
 		if only != nil && only.Check != c.Name {
+			continue
+		}
+		if os.Getenv("C08_NO_ROUND2") != "" && (c.Name == "measure-straddle" || c.Name == "trace-fileparts" || c.Name == "stream-rowplan") {
 			continue
 		}
 		u := &unitSink{outcomes: map[string]bool{}}
@@ -60,6 +68,7 @@ func runUnit(thorough bool, only *unitCase) unitResult {
 		res.Outcomes += len(u.outcomes)
 		res.PerCheck[c.Name] = map[string]int{"evaluations": u.evals, "nontrivial": u.nontrivial, "outcomes": len(u.outcomes), "violating_cases": nv}
 		res.Samples = append(res.Samples, u.samples...)
+		res.NotExhaustive = append(res.NotExhaustive, u.notExh...)
 		fmt.Printf("unit %s: evaluations=%d nontrivial=%d outcomes=%d violating_cases=%d\n", c.Name, u.evals, u.nontrivial, len(u.outcomes), nv)
 	}
 	sort.Slice(res.Violations, func(i, j int) bool { return res.Violations[i].Key < res.Violations[j].Key })
